@@ -575,12 +575,51 @@ def _o_slip132(w):
     return ok, got[0][:12]
 
 
+def _o_tweaks(w):
+    """pub_key_derivation_tweaks: parent point + (sum of tweaks)·G is the derived public key; each tweak is the
+    step's own HMAC left half; a hardened index is refused."""
+    from btclib.curves import bytes_from_point, mult, point_from_octets
+    x, p = _wkey(w), w["p"]
+    with backend(w["serving"]):
+        try:
+            tw = bip32.pub_key_derivation_tweaks(x.key, x.chain_code, p)
+        except BTClibValueError as e:
+            return any(i >= H for i in p), str(e)[:60]
+        if any(i >= H for i in p) or len(tw) != len(p):
+            return False, "hardened path answered / wrong count"
+        Q = point_from_octets(x.key)
+        t = sum(int.from_bytes(b, "big") for b in tw) % N
+        if t:
+            Q = secp256k1.add_var(Q, mult(t))
+        want = bip32.derive_(x, p).key
+        for j, (i, b) in enumerate(zip(p, tw)):
+            par = bip32.derive_(x, p[:j])
+            hm = _hmac.new(par.chain_code, par.key + i.to_bytes(4, "big"), "sha512").digest()
+            if hm[:32] != b:
+                return False, f"tweak at {i} is not the HMAC left half"
+    return bytes_from_point(Q) == want, f"{len(tw)} tweaks"
+
+
 ORACLES = {
+    "tweaks.sum": _o_tweaks,
     "law.split": _o_split, "law.neuter": _o_neuter, "law.crack": _o_crack,
     "refuse.hardened-pub": _o_hardened_pub, "refuse.depth": _o_depth, "refuse.invalid-child": _o_invalid_child,
     "vectors.bip32": _o_vectors, "path.roundtrip": _o_path_roundtrip, "version.pairing": _o_version_pairing,
     "bip85.formula": _o_bip85, "bip44.formula": _o_bip44, "account.range": _o_account, "slip132.version": _o_slip132,
 }
+
+
+def _safe(fn):
+    def g(w):
+        try:
+            return fn(w)
+        except Exception as e:  # noqa: BLE001 - an oracle that cannot be evaluated on the real code has failed
+            return False, f"raised {type(e).__name__}: {e}"
+    g.__doc__ = fn.__doc__
+    return g
+
+
+ORACLES = {k: _safe(v) for k, v in ORACLES.items()}
 
 
 # ------------------------------------------------------------------ run
@@ -614,210 +653,245 @@ def _forced_cases(rng, prv, pub, n):
     return out
 
 
+def _guard(ctx, fn):
+    """A section whose generator cannot even run on the real code is itself a finding (not a harness crash)."""
+    try:
+        fn()
+    except common.HarnessError:
+        raise
+    except Exception as e:  # noqa: BLE001
+        import traceback
+        tb = traceback.extract_tb(e.__traceback__)
+        where = next((f"{t.filename.split('/')[-1]}:{t.lineno}" for t in reversed(tb) if "/repo/" in t.filename), "harness")
+        ctx.oracle(f"section.{fn.__name__}", False, f"real code raised {type(e).__name__}: {e} (at {where}) while building cases",
+                   key=f"section.{fn.__name__}")
+
+
 def run(ctx):
     rng = ctx.rng
     shared.validate_hashes(ctx, EXE)
-    prv, pub = make_pool(rng, ctx.n(12, 40))
+    try:
+        prv, pub = make_pool(rng, ctx.n(12, 40))
+    except Exception as e:  # noqa: BLE001
+        ctx.oracle("section.pool", False, f"real code raised {type(e).__name__}: {e} while deriving the key pool", key="section.pool")
+        return
     allk = prv + pub
 
-    # --- version pairing (translated table vs the real function), every prefix x every network
-    vlines = [f"ver.pub {hx(v)}" for v in PRV_VERSIONS + PUB_VERSIONS] + \
-             [f"ver.pub {hx(common.rand_bytes(rng, rng.choice([4, 4, 3])))}" for _ in range(20)]
-    ctx.stream("version.pub", vlines)
-    for name in network.NETWORKS:
-        ctx.check("version.pairing", {"network": name})
+    def s01_version_pairing():  # version pairing (translated table vs the real function), every prefix x every network
+        vlines = [f"ver.pub {hx(v)}" for v in PRV_VERSIONS + PUB_VERSIONS] + \
+                 [f"ver.pub {hx(common.rand_bytes(rng, rng.choice([4, 4, 3])))}" for _ in range(20)]
+        ctx.stream("version.pub", vlines)
+        for name in network.NETWORKS:
+            ctx.check("version.pairing", {"network": name})
 
-    # --- official vectors: as oracle on the real code and as corpus for the model
-    vec = json.load(open(VECTORS))
-    vlines = []
-    for seed, rows in vec.items():
-        root = bip32.rootxprv_from_seed_(seed)
-        vlines.append(f"bip32.root {seed} {hx(root.version)}")
-        for path, xpub, xprv in rows:
+
+    def s02_official_vectors():  # official vectors: as oracle on the real code and as corpus for the model
+        vec = json.load(open(VECTORS))
+        vlines = []
+        for seed, rows in vec.items():
+            root = bip32.rootxprv_from_seed_(seed)
+            vlines.append(f"bip32.root {seed} {hx(root.version)}")
+            for path, xpub, xprv in rows:
+                for serving in (False, True):
+                    ctx.check("vectors.bip32", {"seed": seed, "path": path, "xpub": xpub, "xprv": xprv, "serving": serving})
+                idx = der_path.indexes_from_der_path(path)
+                vlines.append(f"bip32.derive _ {xtok(root)} {ptok(idx)} none")
+                vlines.append(f"bip32.fold _ {xtok(root)} {ptok(idx)}")
+                vlines.append(f"bip32.neuter {xtok(BIP32KeyData.b58decode(xprv))}")
+                vlines.append(f"path.parse {hx(path.encode())}")
+        _both(ctx, "vectors.model", vlines)
+
+
+    def s03_master_key():  # master key from seed
+        lines = []
+        for _ in range(ctx.n(60, 600)):
+            seed = rand_seed(rng) if rng.random() < 0.85 else common.rand_bytes(rng, rng.choice([0, 1, 15, 65, 66, 128]))
+            r = rng.random()
+            v = rng.choice(PRV_VERSIONS) if r < 0.8 else rng.choice(PUB_VERSIONS) if r < 0.9 else \
+                common.rand_bytes(rng, rng.choice([4, 3, 5]))
+            lines.append(f"bip32.root {hx(seed)} {hx(v)}")
+        ctx.stream("bip32.root", lines)
+
+
+    def s04_derive_public():  # derive: public entry point (object / text / bytes spellings), all fields compared
+        lines, raw, fold = [], [], []
+        for _ in range(ctx.n(500, 6000)):
+            x = rng.choice(allk)
+            if rng.random() < 0.12:
+                x = malform(rng, x)
+            p = rand_path(rng, 12, hardened_ok=x.key[:1] == b"\x00" or rng.random() < 0.15)
+            if rng.random() < 0.03:
+                p = p + [rng.choice([2**32, 2**32 + 1])]
+            if x.depth >= 200 and rng.random() < 0.7:
+                p = [rand_index(rng) % (H if x.key[0] else 2**32) for _ in range(max(0, 255 - x.depth + rng.choice([-1, 0, 0, 1])))]
+            f = rand_forced(rng, x)
+            lines.append(f"bip32.derive _ {xtok(x)} {ptok(p)} {f}")
+            # `_derive` is private: its contract is a key its caller has validated and indexes already read
+            if all(i < 2**32 for i in p) and _is_valid(x):
+                raw.append(f"bip32.raw _ {xtok(x)} {ptok(p)} {f}")
+                fold.append(f"bip32.fold _ {xtok(x)} {ptok(p)}")
+        # the 255 boundary from depth 0 (a long walk, few of them)
+        for _ in range(ctx.n(2, 10)):
+            x = rng.choice([k for k in allk if k.depth == 0])
+            for ln in (255, 256):
+                p = [rand_index(rng) % (H if x.key[0] else 2**32) for _ in range(ln)]
+                lines.append(f"bip32.derive _ {xtok(x)} {ptok(p)} none")
+                fold.append(f"bip32.fold _ {xtok(x)} {ptok(p)}")
+        _both(ctx, "bip32.derive", lines)
+        _both(ctx, "bip32.raw", raw)
+        # the BIP's plain fold of single steps against the real _derive: the last-step optimisation is invisible
+        _both(ctx, "bip32.fold", fold[: ctx.n(300, 3000)])
+
+
+    def s05_invalid_child():  # invalid-child branches (HMAC forced on both sides)
+        fl = []
+        for start, p, tok, bad in _forced_cases(rng, prv, pub, ctx.n(40, 600)):
+            fl.append(f"bip32.raw {tok} {xtok(start)} {ptok(p)} none")
+            fl.append(f"bip32.fold {tok} {xtok(start)} {ptok(p)}")
+            if bad:
+                for serving in (False, True):
+                    ctx.check("refuse.invalid-child", {"x": xtok(start), "p": p, "mac": tok, "serving": serving})
+        _both(ctx, "bip32.invalid-child", fl)
+
+
+    def s06_neuter_fingerprint():  # neuter, fingerprint, validity
+        lines = []
+        for _ in range(ctx.n(120, 2000)):
+            x = rng.choice(allk)
+            if rng.random() < 0.35:
+                x = malform(rng, x)
+            lines += [f"bip32.neuter {xtok(x)}", f"bip32.fp {xtok(x)}", f"bip32.valid {xtok(x)}"]
+        _both(ctx, "bip32.neuter-fp-valid", lines)
+
+
+    def s07_crack():  # crack
+        lines = []
+        for _ in range(ctx.n(60, 1000)):
+            par = rng.choice([x for x in prv if x.depth < 255])
+            i = rand_index(rng)
+            child = bip32.derive_(par, [i])
+            xpub = bip32.xpub_from_xprv_(par)
+            r = rng.random()
+            if r < 0.15:
+                child = rng.choice(prv)                      # not the parent's child
+            elif r < 0.25:
+                xpub, child = child, xpub                    # roles swapped
+            elif r < 0.3:
+                child = malform(rng, child)
+            lines.append(f"bip32.crack _ {xtok(xpub)} {xtok(child)}")
             for serving in (False, True):
-                ctx.check("vectors.bip32", {"seed": seed, "path": path, "xpub": xpub, "xprv": xprv, "serving": serving})
-            idx = der_path.indexes_from_der_path(path)
-            vlines.append(f"bip32.derive _ {xtok(root)} {ptok(idx)} none")
-            vlines.append(f"bip32.fold _ {xtok(root)} {ptok(idx)}")
-            vlines.append(f"bip32.neuter {xtok(BIP32KeyData.b58decode(xprv))}")
-            vlines.append(f"path.parse {hx(path.encode())}")
-    _both(ctx, "vectors.model", vlines)
+                ctx.check("law.crack", {"x": xtok(par), "i": i, "serving": serving}, nontrivial=i < H)
+        _both(ctx, "bip32.crack", lines)
 
-    # --- master key from seed
-    lines = []
-    for _ in range(ctx.n(60, 600)):
-        seed = rand_seed(rng) if rng.random() < 0.85 else common.rand_bytes(rng, rng.choice([0, 1, 15, 65, 66, 128]))
-        r = rng.random()
-        v = rng.choice(PRV_VERSIONS) if r < 0.8 else rng.choice(PUB_VERSIONS) if r < 0.9 else \
-            common.rand_bytes(rng, rng.choice([4, 3, 5]))
-        lines.append(f"bip32.root {hx(seed)} {hx(v)}")
-    ctx.stream("bip32.root", lines)
 
-    # --- derive: public entry point (object / text / bytes spellings), all fields compared
-    lines, raw, fold = [], [], []
-    for _ in range(ctx.n(500, 6000)):
-        x = rng.choice(allk)
-        if rng.random() < 0.12:
-            x = malform(rng, x)
-        p = rand_path(rng, 12, hardened_ok=x.key[:1] == b"\x00" or rng.random() < 0.15)
-        if rng.random() < 0.03:
-            p = p + [rng.choice([2**32, 2**32 + 1])]
-        if x.depth >= 200 and rng.random() < 0.7:
-            p = [rand_index(rng) % (H if x.key[0] else 2**32) for _ in range(max(0, 255 - x.depth + rng.choice([-1, 0, 0, 1])))]
-        f = rand_forced(rng, x)
-        lines.append(f"bip32.derive _ {xtok(x)} {ptok(p)} {f}")
-        # `_derive` is private: its contract is a key its caller has validated and indexes already read
-        if all(i < 2**32 for i in p) and _is_valid(x):
-            raw.append(f"bip32.raw _ {xtok(x)} {ptok(p)} {f}")
-            fold.append(f"bip32.fold _ {xtok(x)} {ptok(p)}")
-    # the 255 boundary from depth 0 (a long walk, few of them)
-    for _ in range(ctx.n(2, 10)):
-        x = rng.choice([k for k in allk if k.depth == 0])
-        for ln in (255, 256):
-            p = [rand_index(rng) % (H if x.key[0] else 2**32) for _ in range(ln)]
-            lines.append(f"bip32.derive _ {xtok(x)} {ptok(p)} none")
-            fold.append(f"bip32.fold _ {xtok(x)} {ptok(p)}")
-    _both(ctx, "bip32.derive", lines)
-    _both(ctx, "bip32.raw", raw)
-    # the BIP's plain fold of single steps against the real _derive: the last-step optimisation is invisible
-    _both(ctx, "bip32.fold", fold[: ctx.n(300, 3000)])
+    def s08_account_level():  # account-level derivation
+        lines = []
+        accounts = [x for x in allk if x.depth < 250]
+        for _ in range(ctx.n(60, 1000)):
+            x = rng.choice(accounts)
+            b = rng.choice([0, 1, 1, 2, 0xFFFF, 0x10000, H, H + 1])
+            a = rng.choice([0, 1, 5, 0xFFFF, 0x10000, H - 1, H])
+            only = rng.random() < 0.6
+            mx = rng.choice([0xFFFF, 0xFFFF, 10, H, 2**32])
+            lines.append(f"bip32.account {xtok(x)} {b} {a} {only} {mx}")
+            idx = [rng.choice([0, 1, 2, 7, 0xFFFF, 0x10000, H]) for _ in range(rng.randrange(0, 4))]
+            lines.append(f"bip32.range {xtok(x)} {b} {ptok(idx)} {only} {mx}")
+        _both(ctx, "bip32.account", lines)
+        for _ in range(ctx.n(10, 100)):
+            x = rng.choice([k for k in accounts if k.index >= H])
+            ctx.check("account.range", {"x": xtok(x), "b": rng.choice([0, 1]), "idx": [rng.randrange(0, 0x10000) for _ in range(3)],
+                                        "serving": rng.random() < 0.5})
 
-    # --- invalid-child branches (HMAC forced on both sides)
-    fl = []
-    for start, p, tok, bad in _forced_cases(rng, prv, pub, ctx.n(40, 600)):
-        fl.append(f"bip32.raw {tok} {xtok(start)} {ptok(p)} none")
-        fl.append(f"bip32.fold {tok} {xtok(start)} {ptok(p)}")
-        if bad:
-            for serving in (False, True):
-                ctx.check("refuse.invalid-child", {"x": xtok(start), "p": p, "mac": tok, "serving": serving})
-    _both(ctx, "bip32.invalid-child", fl)
 
-    # --- neuter, fingerprint, validity
-    lines = []
-    for _ in range(ctx.n(120, 2000)):
-        x = rng.choice(allk)
-        if rng.random() < 0.35:
-            x = malform(rng, x)
-        lines += [f"bip32.neuter {xtok(x)}", f"bip32.fp {xtok(x)}", f"bip32.valid {xtok(x)}"]
-    _both(ctx, "bip32.neuter-fp-valid", lines)
+    def s09_the_laws():  # the laws on the real code alone
+        for _ in range(ctx.n(40, 600)):
+            x = rng.choice([k for k in allk if k.depth < 200])
+            p = rand_path(rng, 8, hardened_ok=x.key[:1] == b"\x00")
+            ctx.check("law.split", {"x": xtok(x), "p": p, "serving": rng.random() < 0.5})
+        for _ in range(ctx.n(40, 600)):
+            x = rng.choice([k for k in prv if k.depth < 200])
+            ctx.check("law.neuter", {"x": xtok(x), "p": rand_path(rng, 8, hardened_ok=False), "serving": rng.random() < 0.5})
+        for _ in range(ctx.n(30, 300)):
+            x = rng.choice([k for k in pub if k.depth < 200])
+            p = rand_path(rng, 6, hardened_ok=False)
+            p.insert(rng.randrange(len(p) + 1), rng.randrange(H, 2**32))
+            ctx.check("refuse.hardened-pub", {"x": xtok(x), "p": p, "serving": rng.random() < 0.5})
+        for _ in range(ctx.n(30, 300)):
+            x = rng.choice([k for k in pub if k.depth < 200])
+            p = rand_path(rng, 6, hardened_ok=rng.random() < 0.15)
+            ctx.check("tweaks.sum", {"x": xtok(x), "p": p, "serving": rng.random() < 0.5}, nontrivial=all(i < H for i in p))
+        for _ in range(ctx.n(12, 60)):
+            x = rng.choice([k for k in allk if k.depth >= 250])
+            room = 255 - x.depth
+            for ln in {max(0, room - 1), room, room + 1}:
+                p = [rng.randrange(0, H) for _ in range(ln)]
+                ctx.check("refuse.depth", {"x": xtok(x), "p": p, "serving": rng.random() < 0.5}, nontrivial=ln <= room)
 
-    # --- crack
-    lines = []
-    for _ in range(ctx.n(60, 1000)):
-        par = rng.choice([x for x in prv if x.depth < 255])
-        i = rand_index(rng)
-        child = bip32.derive_(par, [i])
-        xpub = bip32.xpub_from_xprv_(par)
-        r = rng.random()
-        if r < 0.15:
-            child = rng.choice(prv)                      # not the parent's child
-        elif r < 0.25:
-            xpub, child = child, xpub                    # roles swapped
-        elif r < 0.3:
-            child = malform(rng, child)
-        lines.append(f"bip32.crack _ {xtok(xpub)} {xtok(child)}")
-        for serving in (False, True):
-            ctx.check("law.crack", {"x": xtok(par), "i": i, "serving": serving}, nontrivial=i < H)
-    _both(ctx, "bip32.crack", lines)
 
-    # --- account-level derivation
-    lines = []
-    accounts = [x for x in allk if x.depth < 250]
-    for _ in range(ctx.n(60, 1000)):
-        x = rng.choice(accounts)
-        b = rng.choice([0, 1, 1, 2, 0xFFFF, 0x10000, H, H + 1])
-        a = rng.choice([0, 1, 5, 0xFFFF, 0x10000, H - 1, H])
-        only = rng.random() < 0.6
-        mx = rng.choice([0xFFFF, 0xFFFF, 10, H, 2**32])
-        lines.append(f"bip32.account {xtok(x)} {b} {a} {only} {mx}")
-        idx = [rng.choice([0, 1, 2, 7, 0xFFFF, 0x10000, H]) for _ in range(rng.randrange(0, 4))]
-        lines.append(f"bip32.range {xtok(x)} {b} {ptok(idx)} {only} {mx}")
-    _both(ctx, "bip32.account", lines)
-    for _ in range(ctx.n(10, 100)):
-        x = rng.choice([k for k in accounts if k.index >= H])
-        ctx.check("account.range", {"x": xtok(x), "b": rng.choice([0, 1]), "idx": [rng.randrange(0, 0x10000) for _ in range(3)],
-                                    "serving": rng.random() < 0.5})
+    def s10_path_spellings():  # path spellings
+        lines = []
+        for _ in range(ctx.n(150, 3000)):
+            p = [rand_index(rng) for _ in range(rng.choice([0, 1, 2, 3, 5, 12]))]
+            hsym = rng.choice(["h", "'"])
+            ctx.check("path.roundtrip", {"p": p, "h": hsym})
+            lines.append(f"path.str {ptok(p)} {hx(rng.choice(['h', chr(39), 'H', '', 'hh', 'x']).encode())}")
+            lines.append(f"path.bytes {ptok(p + ([2**32] if rng.random() < 0.1 else []))}")
+            b = der_path.bytes_from_der_path(p) + common.rand_bytes(rng, rng.choice([0, 0, 0, 1, 2, 4]))
+            lines.append(f"path.frombytes {hx(b)}")
+            s = der_path.str_from_der_path(p, hardening=hsym)
+            s = _mutate_path_text(rng, s)
+            op = "path.parse380" if rng.random() < 0.3 else "path.parse"
+            lines.append(f"{op} {hx(s.encode('latin-1'))}")
+        # boundary: 2^31-1 / 2^31 as plain numbers and with markers, long paths around the 255 cap
+        for s in ["m", "", "/", "m/", "M", "m/m", "2147483647", "2147483648", "2147483647h", "2147483648h", "m/0h/0'/0H",
+                  "m/-0", "m/+1", "m/1_0", "m/1__0", "m/_1", "m/1_", "m/ 1 /2", "m/0x10", "m/١", "m/h", "m/'",
+                  "/".join(["m"] + ["0"] * 255), "/".join(["m"] + ["0"] * 256), "/".join(["0"] * 256), "0/m", "m/0 h", "m/0h "]:
+            try:
+                b = s.encode("latin-1")
+            except UnicodeEncodeError:
+                continue
+            lines += [f"path.parse {hx(b)}", f"path.parse380 {hx(b)}"]
+        ctx.stream("path.spellings", lines)
 
-    # --- the laws on the real code alone
-    for _ in range(ctx.n(40, 600)):
-        x = rng.choice([k for k in allk if k.depth < 200])
-        p = rand_path(rng, 8, hardened_ok=x.key[:1] == b"\x00")
-        ctx.check("law.split", {"x": xtok(x), "p": p, "serving": rng.random() < 0.5})
-    for _ in range(ctx.n(40, 600)):
-        x = rng.choice([k for k in prv if k.depth < 200])
-        ctx.check("law.neuter", {"x": xtok(x), "p": rand_path(rng, 8, hardened_ok=False), "serving": rng.random() < 0.5})
-    for _ in range(ctx.n(30, 300)):
-        x = rng.choice([k for k in pub if k.depth < 200])
-        p = rand_path(rng, 6, hardened_ok=False)
-        p.insert(rng.randrange(len(p) + 1), rng.randrange(H, 2**32))
-        ctx.check("refuse.hardened-pub", {"x": xtok(x), "p": p, "serving": rng.random() < 0.5})
-    for _ in range(ctx.n(12, 60)):
-        x = rng.choice([k for k in allk if k.depth >= 250])
-        room = 255 - x.depth
-        for ln in {max(0, room - 1), room, room + 1}:
-            p = [rng.randrange(0, H) for _ in range(ln)]
-            ctx.check("refuse.depth", {"x": xtok(x), "p": p, "serving": rng.random() < 0.5}, nontrivial=ln <= room)
 
-    # --- path spellings
-    lines = []
-    for _ in range(ctx.n(150, 3000)):
-        p = [rand_index(rng) for _ in range(rng.choice([0, 1, 2, 3, 5, 12]))]
-        hsym = rng.choice(["h", "'"])
-        ctx.check("path.roundtrip", {"p": p, "h": hsym})
-        lines.append(f"path.str {ptok(p)} {hx(rng.choice(['h', chr(39), 'H', '', 'hh', 'x']).encode())}")
-        lines.append(f"path.bytes {ptok(p + ([2**32] if rng.random() < 0.1 else []))}")
-        b = der_path.bytes_from_der_path(p) + common.rand_bytes(rng, rng.choice([0, 0, 0, 1, 2, 4]))
-        lines.append(f"path.frombytes {hx(b)}")
-        s = der_path.str_from_der_path(p, hardening=hsym)
-        s = _mutate_path_text(rng, s)
-        op = "path.parse380" if rng.random() < 0.3 else "path.parse"
-        lines.append(f"{op} {hx(s.encode('latin-1'))}")
-    # boundary: 2^31-1 / 2^31 as plain numbers and with markers, long paths around the 255 cap
-    for s in ["m", "", "/", "m/", "M", "m/m", "2147483647", "2147483648", "2147483647h", "2147483648h", "m/0h/0'/0H",
-              "m/-0", "m/+1", "m/1_0", "m/1__0", "m/_1", "m/1_", "m/ 1 /2", "m/0x10", "m/١", "m/h", "m/'",
-              "/".join(["m"] + ["0"] * 255), "/".join(["m"] + ["0"] * 256), "/".join(["0"] * 256), "0/m", "m/0 h", "m/0h "]:
-        try:
-            b = s.encode("latin-1")
-        except UnicodeEncodeError:
-            continue
-        lines += [f"path.parse {hx(b)}", f"path.parse380 {hx(b)}"]
-    ctx.stream("path.spellings", lines)
+    def s11_thin_layers():  # thin layers: BIP85 entropy, BIP44 address formula, SLIP132 versions
+        lines = []
+        for _ in range(ctx.n(40, 600)):
+            x = rng.choice([k for k in allk if k.depth < 200])
+            r = rng.random()
+            p = [bip85._PURPOSE + H] + [rng.randrange(H, 2**32) for _ in range(rng.choice([1, 2, 2, 3, 5]))]
+            good = len(p) >= 3
+            if r < 0.15:
+                p[rng.randrange(len(p))] %= H
+                good = False
+            elif r < 0.25:
+                p[0] = rng.choice([bip85._PURPOSE, 44 + H])
+                good = False
+            lines.append(f"bip85.entropy {xtok(x)} {ptok(p)}")
+            if good and x.key[0] == 0:
+                ctx.check("bip85.formula", {"x": xtok(x), "p": p, "serving": rng.random() < 0.5})
+        _both(ctx, "bip85.entropy", lines)
+        roots = [k for k in prv if k.depth == 0]
+        for _ in range(ctx.n(40, 400)):
+            root = rng.choice(roots)
+            main = network.network_type_from_xkeyversion(root.version) == "main"
+            purpose = rng.choice([44, 49, 84, 86])
+            coin = (0 if main else 1) if rng.random() < 0.85 else rng.choice([0, 1, 2])
+            p = [purpose + H, coin + H, rng.randrange(0, 5) + H, rng.choice([0, 1]), rng.randrange(0, 1000)]
+            depth = rng.choice([0, 0, 3, 3, 4, 5])
+            x = bip32.derive_(root, p[:depth])
+            if depth >= 3 and rng.random() < 0.5:
+                x = bip32.xpub_from_xprv_(x)
+            refuse = coin != (0 if main else 1)
+            ctx.check("bip44.formula", {"x": xtok(x), "p": p, "expect_refusal": refuse, "serving": rng.random() < 0.5},
+                      nontrivial=not refuse)
+        for _ in range(ctx.n(20, 200)):
+            x = rng.choice([k for k in allk if k.depth < 200])
+            p = rand_path(rng, 3, hardened_ok=x.key[:1] == b"\x00")
+            ctx.check("slip132.version", {"x": xtok(x), "p": p, "serving": rng.random() < 0.5})
 
-    # --- thin layers: BIP85 entropy, BIP44 address formula, SLIP132 versions
-    lines = []
-    for _ in range(ctx.n(40, 600)):
-        x = rng.choice([k for k in allk if k.depth < 200])
-        r = rng.random()
-        p = [bip85._PURPOSE + H] + [rng.randrange(H, 2**32) for _ in range(rng.choice([1, 2, 2, 3, 5]))]
-        good = len(p) >= 3
-        if r < 0.15:
-            p[rng.randrange(len(p))] %= H
-            good = False
-        elif r < 0.25:
-            p[0] = rng.choice([bip85._PURPOSE, 44 + H])
-            good = False
-        lines.append(f"bip85.entropy {xtok(x)} {ptok(p)}")
-        if good and x.key[0] == 0:
-            ctx.check("bip85.formula", {"x": xtok(x), "p": p, "serving": rng.random() < 0.5})
-    _both(ctx, "bip85.entropy", lines)
-    roots = [k for k in prv if k.depth == 0]
-    for _ in range(ctx.n(40, 400)):
-        root = rng.choice(roots)
-        main = network.network_type_from_xkeyversion(root.version) == "main"
-        purpose = rng.choice([44, 49, 84, 86])
-        coin = (0 if main else 1) if rng.random() < 0.85 else rng.choice([0, 1, 2])
-        p = [purpose + H, coin + H, rng.randrange(0, 5) + H, rng.choice([0, 1]), rng.randrange(0, 1000)]
-        depth = rng.choice([0, 0, 3, 3, 4, 5])
-        x = bip32.derive_(root, p[:depth])
-        if depth >= 3 and rng.random() < 0.5:
-            x = bip32.xpub_from_xprv_(x)
-        refuse = coin != (0 if main else 1)
-        ctx.check("bip44.formula", {"x": xtok(x), "p": p, "expect_refusal": refuse, "serving": rng.random() < 0.5},
-                  nontrivial=not refuse)
-    for _ in range(ctx.n(20, 200)):
-        x = rng.choice([k for k in allk if k.depth < 200])
-        p = rand_path(rng, 3, hardened_ok=x.key[:1] == b"\x00")
-        ctx.check("slip132.version", {"x": xtok(x), "p": p, "serving": rng.random() < 0.5})
+    for fn in (s01_version_pairing, s02_official_vectors, s03_master_key, s04_derive_public, s05_invalid_child, s06_neuter_fingerprint, s07_crack, s08_account_level, s09_the_laws, s10_path_spellings, s11_thin_layers):
+        _guard(ctx, fn)
 
 
 def _mutate_path_text(rng, s):
